@@ -45,8 +45,10 @@ jcc = ['jz', 'je', 'jne', 'jnz', 'jp', 'jnp', 'jg', 'jge', 'ja', 'jae', 'jb', 'j
 rep_string = ["ins", "outs", "movs", "lods", "stos", "cmps", "scas"]
 
 def is_rep_string(l):
+    # (movsb/movsw/movsd, not movsx)
     return (0xF2 in l.prefix or 0xF3 in l.prefix) and \
-           not "MMX" in l.m.name and l.m.name[:-1] in rep_string
+           not "MMX" in l.m.name and l.m.name[:-1] in rep_string and \
+           l.m.name[-1] in "bwd"
 
 def get_instr_expr_args(l, args, my_eip):
     for a in args:
